@@ -3,6 +3,11 @@ from __future__ import annotations
 
 from hypothesis import strategies as st
 
+import logging
+
+from streamflow.log_handler import logger as _sf_logger
+
+_sf_logger.setLevel(logging.CRITICAL)  # per-job filter warnings would be 11 MB of stderr per run
 from vf.core import Prop, Violation
 from vf import sched_model as sm
 
